@@ -5,6 +5,7 @@ import z3
 from pyvc import smt, views
 from pyvc.smt import I
 from pyvc.values import *          # noqa
+from pyvc.values import eqv, veq   # noqa
 from pyvc.engine import GenStreamV, RangeV, Outcome, IterV
 from pyvc.contract import *        # noqa
 from pyvc.views import View, AbsView, AX, Out
@@ -287,7 +288,7 @@ def _parmap_post(with_key):
                                                                  eo.exc.t == smt.APP_E(fn, x)))))
                 else:
                     good.append(z3.Implies(eo.cond, z3.And(z3.Not(d.raises(k)), z3.Not(smt.APP_R(fn, x)),
-                                                           veq(eo.value, TupleV([KeyV(d.key(k)), ObjV(smt.APP_V(fn, x))])))))
+                                                           eqv(eo.value, TupleV([KeyV(d.key(k)), ObjV(smt.APP_V(fn, x))])))))
             out.append(('parmap:items-element-is-(key,f(value))', z3.Implies(z3.And(k >= 0, k < d.n()), z3.And(*good))))
         return out
     return post
